@@ -94,7 +94,7 @@ class Feed:
                 self.flags[st["as"]] = self.flags.get(st["c"], set())
             return
         if op == "NEW":
-            M.new(st["c"], st["reps"])
+            M.new(st["c"], st["reps"], st.get("rel"))
             self.flags[st["c"]] = set()
             self.leaf_entries[st["c"]] = []
             self.touch(st["c"], i)
@@ -159,6 +159,19 @@ class Feed:
             if v.get("collision"):
                 self.key_collisions.add(("sub", name, i))
                 self.probe("copy-key-collision")
+            own_rel = M.roots[child].rel
+            if own_rel is not None and own_rel[0] != "MULTI" and M.is_member(M.roots[name], own_rel[1]) and sp is not None:
+                # the sub-circuit itself was constructed with a relation to an operation of this circuit (C01: a
+                # sub-circuit is scheduled by its relation like any operation)
+                self.probe("sub-circuit-with-own-relation")
+                ref = sp["ref_obj"]
+                if sp["rt"] == own_rel[0] and ref is not None and id(ref) == own_rel[1].key:
+                    c.rel = (own_rel[0], own_rel[1])
+                    sp = None
+                else:
+                    self.findings.append(oracles.F(["C01"], "sub-circuit-relation-dropped", step=i, want=[own_rel[0], own_rel[1].label()],
+                                                   got=[sp["rt"], None if ref is None else (["COMP", []] if observe.kind_of(ref) == "COMP" else observe.static_label(ref))],
+                                                   diag="D19"))
             if sp is not None:
                 ref = sp["ref_obj"]
                 impl = {"rt": sp["rt"], "ref_key": None if ref is None else id(ref)}
@@ -515,7 +528,7 @@ def transition_oracles(desc, i, st, full, feed, stats):
     ls = feed.last_sub.get(name)
     if ls is not None and last_mut <= ls[0]:
         s_step, child, k = ls
-        if child in M.roots and feed.last_struct_mut.get(id(M.roots[child]), -1) < s_step and M.roots[child] is not root:
+        if child in M.roots and child not in M.bound and feed.last_struct_mut.get(id(M.roots[child]), -1) < s_step and M.roots[child] is not root:
             owner = None
             j = None
             for jj, c in enumerate(comps):
